@@ -182,7 +182,7 @@ PROPS["C06"] = dict(
     assumptions=NUM_ASSUME,
     technique="exhaustive enumeration of all 8/16/32-bit source codes in amplitude order + property-based testing (rapid) on 64-bit sources; order and reference-level oracle in exact integer arithmetic",
     level_text=("Complete enumeration of every 8- and 16-bit source code (quick) and every 32-bit source code (thorough) for all destinations decides order "
-                "preservation exactly on those sub-domains; 64-bit sources are sampled densely at boundaries and at random (order is checked on sorted samples). Long and wide at once: 12 channels x 40000 and 64 channels x 70001 samples per pair in the sweep; rapid couples very long buffers with 1..64 channels. Operands may also have grown out of an empty window (Slice(fr,fr) then Append). Named element types (34 further instantiations); a source that was the output of a conversion and is converted through a window cut then (fix 5). Operands of unequal length (source or destination two frames longer). One destination buffer per destination type may be shared by all instantiations (fix 8). A source that was converted into a shorter destination before (fix 9). Output in pieces: two adjacent destination windows of one parent, the source going on beyond the first (fix 10). Same-type instantiations between adjacent windows of one parent (fix 11)."),
+                "preservation exactly on those sub-domains; 64-bit sources are sampled densely at boundaries and at random (order is checked on sorted samples). Long and wide at once: 12 channels x 40000 and 64 channels x 70001 samples per pair in the sweep; rapid couples very long buffers with 1..64 channels. Operands may also have grown out of an empty window (Slice(fr,fr) then Append). Named element types (34 further instantiations); a source that was the output of a conversion and is converted through a window cut then (fix 5). Operands of unequal length (source or destination two frames longer). One destination buffer per destination type may be shared by all instantiations (fix 8). A source that was converted into a shorter destination before (fix 9). Output in pieces: two adjacent destination windows of one parent, the source going on beyond the first (fix 10). Same-type instantiations between adjacent windows of one parent (fix 11). One call of 150001 samples for every eighth (fourth) instantiation."),
     level_note="Order preservation between two arbitrary 64-bit inputs is only sampled; adjacent-code monotonicity on the swept domains implies it there.",
 )
 
@@ -197,7 +197,7 @@ PROPS["C07"] = dict(
     assumptions=NUM_ASSUME,
     technique="exhaustive enumeration of all 8/16/32-bit source codes + property-based testing (rapid) on 64-bit sources; floor/ceil accuracy oracle and widen-then-narrow round trip in exact integer arithmetic",
     level_text=("Complete enumeration of every 8/16-bit (quick) and 32-bit (thorough) source code for all 11 destinations, including every widen-and-back "
-                "composition; 64-bit sources sampled at boundaries and at random. Long and wide at once: 12 channels x 40000 and 64 channels x 70001 samples per pair in the sweep; rapid couples very long buffers with 1..64 channels. Operands may also have grown out of an empty window (Slice(fr,fr) then Append). Named element types (34 further instantiations); a source that was the output of a conversion and is converted through a window cut then (fix 5). Operands of unequal length (source or destination two frames longer). One destination buffer per destination type may be shared by all instantiations (fix 8). A source that was converted into a shorter destination before (fix 9). Output in pieces: two adjacent destination windows of one parent, the source going on beyond the first (fix 10). Same-type instantiations between adjacent windows of one parent (fix 11)."),
+                "composition; 64-bit sources sampled at boundaries and at random. Long and wide at once: 12 channels x 40000 and 64 channels x 70001 samples per pair in the sweep; rapid couples very long buffers with 1..64 channels. Operands may also have grown out of an empty window (Slice(fr,fr) then Append). Named element types (34 further instantiations); a source that was the output of a conversion and is converted through a window cut then (fix 5). Operands of unequal length (source or destination two frames longer). One destination buffer per destination type may be shared by all instantiations (fix 8). A source that was converted into a shorter destination before (fix 9). Output in pieces: two adjacent destination windows of one parent, the source going on beyond the first (fix 10). Same-type instantiations between adjacent windows of one parent (fix 11). One call of 150001 samples for every eighth (fourth) instantiation."),
     level_note="Round trips return to every element type with the source's signedness and depth (int/int64, uint/uint64/uintptr).",
 )
 
@@ -216,7 +216,7 @@ PROPS["C08"] = dict(
     assumptions=NUM_ASSUME + ["NaN inputs are excluded (result unspecified by the property)", "the verdict is for linux/amd64, where the library relies on the platform's float-to-integer conversion for in-range negative inputs to unsigned types"],
     technique="exhaustive enumeration of all float32 bit patterns (thorough) + boundary-dense sweep + property-based testing (rapid) and native fuzzing; clip/linearity/monotonicity oracle decided with exact 128-bit arithmetic",
     level_text=("Every non-NaN float32 input for all 11 float32-source instantiations is enumerated in numeric order (thorough), which decides clipping, accuracy and "
-                "monotonicity exactly there; float64 inputs are sampled densely at the boundaries the property names and at random. Long and wide at once: 12 channels x 40000 and 64 channels x 70001 samples per instantiation in the sweep; rapid couples very long buffers with 1..64 channels. Operands may also have grown out of an empty window (Slice(fr,fr) then Append). Named element types (34 further instantiations); a source that was the output of a conversion and is converted through a window cut then (fix 5). Operands of unequal length (source or destination two frames longer). One destination buffer per destination type may be shared by all instantiations (fix 8). A source that was converted into a shorter destination before (fix 9). Output in pieces: two adjacent destination windows of one parent, the source going on beyond the first (fix 10). Same-type instantiations between adjacent windows of one parent (fix 11)."),
+                "monotonicity exactly there; float64 inputs are sampled densely at the boundaries the property names and at random. Long and wide at once: 12 channels x 40000 and 64 channels x 70001 samples per instantiation in the sweep; rapid couples very long buffers with 1..64 channels. Operands may also have grown out of an empty window (Slice(fr,fr) then Append). Named element types (34 further instantiations); a source that was the output of a conversion and is converted through a window cut then (fix 5). Operands of unequal length (source or destination two frames longer). One destination buffer per destination type may be shared by all instantiations (fix 8). A source that was converted into a shorter destination before (fix 9). Output in pieces: two adjacent destination windows of one parent, the source going on beyond the first (fix 10). Same-type instantiations between adjacent windows of one parent (fix 11). One call of 150001 samples for every eighth (fourth) instantiation."),
     level_note="The one-step tolerance is the property's own; the oracle has no floating tolerance of its own (exact integer comparison).",
 )
 
@@ -234,7 +234,7 @@ PROPS["C09"] = dict(
     assumptions=NUM_ASSUME,
     technique="exhaustive enumeration of all 8/16/32-bit source codes + property-based testing (rapid) on 64-bit sources; range/level/order/accuracy oracle and round trip through the inverse conversion",
     level_text=("Complete enumeration of every 8/16-bit (quick) and 32-bit (thorough) code into both float types, with injectivity and round trips; 64-bit sources "
-                "sampled. One known finding (F9, UnsignedAsFloat) is reported as KNOWN-FINDING and excluded by a structural predicate. Long and wide at once: 12 channels x 40000 and 64 channels x 70001 samples per pair in the sweep; rapid couples very long buffers with 1..64 channels. Operands may also have grown out of an empty window (Slice(fr,fr) then Append). Named element types (34 further instantiations); a source that was the output of a conversion and is converted through a window cut then (fix 5). Operands of unequal length (source or destination two frames longer). One destination buffer per destination type may be shared by all instantiations (fix 8); the same values are converted again in three other arrangements and compared bit for bit. A source that was converted into a shorter destination before (fix 9). Output in pieces: two adjacent destination windows of one parent, the source going on beyond the first (fix 10). Same-type instantiations between adjacent windows of one parent (fix 11)."),
+                "sampled. One known finding (F9, UnsignedAsFloat) is reported as KNOWN-FINDING and excluded by a structural predicate. Long and wide at once: 12 channels x 40000 and 64 channels x 70001 samples per pair in the sweep; rapid couples very long buffers with 1..64 channels. Operands may also have grown out of an empty window (Slice(fr,fr) then Append). Named element types (34 further instantiations); a source that was the output of a conversion and is converted through a window cut then (fix 5). Operands of unequal length (source or destination two frames longer). One destination buffer per destination type may be shared by all instantiations (fix 8); the same values are converted again in three other arrangements and compared bit for bit. A source that was converted into a shorter destination before (fix 9). Output in pieces: two adjacent destination windows of one parent, the source going on beyond the first (fix 10). Same-type instantiations between adjacent windows of one parent (fix 11). One call of 150001 samples for every eighth (fourth) instantiation."),
     level_note="'plus float rounding' is taken as 4 ulp of 1 in the destination float type.",
 )
 PROPS["C16"] = dict(
